@@ -18,6 +18,7 @@ import (
 	"encoding/json"
 	"errors"
 	"fmt"
+	"reflect"
 	"strings"
 
 	"github.com/compose-spec/compose-go/v2/dotenv"
@@ -32,6 +33,8 @@ type mappingArgs struct {
 	Lookup map[string]string `json:"lookup"`         // what the lookup function reports as set
 	File   [][2]string       `json:"file,omitempty"` // earlier lines of the env file (dotenv only), in order
 	Via    string            `json:"via,omitempty"`  // dotenv: "unmarshal" | "parse"
+	// substInterp: environments under which the SAME dict is interpolated before the observed call (c07_hist.go)
+	Hist []map[string]string `json:"hist,omitempty"`
 }
 
 const c07OutKey = "ZZ_C07_OUT"
@@ -81,6 +84,8 @@ func mappingJudge(prefix string, full bool) func(args, real, drv json.RawMessage
 			Skip     string          `json:"skip"`
 			Rendered string          `json:"rendered"`
 			Out      json.RawMessage `json:"out"`
+			HistBad  string          `json:"hist_bad"`
+			HistWhat string          `json:"hist_what"`
 		}
 		var d struct {
 			WF       bool            `json:"wf"`
@@ -93,6 +98,9 @@ func mappingJudge(prefix string, full bool) func(args, real, drv json.RawMessage
 		}
 		if r.Skip != "" {
 			return core.Skip(r.Skip)
+		}
+		if r.HistBad != "" { // holds for every input, in the grammar or not (c07_hist.go)
+			return core.Fail(prefix+"-history:"+r.HistBad, r.HistWhat)
 		}
 		if r.Rendered != d.Rendered {
 			return core.Disagree("Go render ≠ Lean render")
@@ -203,10 +211,46 @@ func init() {
 			var a mappingArgs
 			json.Unmarshal(raw, &a)
 			t := renderSegs(a.Ast)
-			cfg := map[string]any{"k": t, "m": map[string]any{"l": []any{t}}}
+			// templates at the top level, below it (map → sequence, map → map), next to sub-trees without any template
+			mkCfg := func() map[string]any {
+				return map[string]any{"k": t, "m": map[string]any{"l": []any{t}, "d": map[string]any{"t": t, "esc": "$$X-${Y:-d}"}},
+					"n": map[string]any{"plain": "x", "deep": map[string]any{"q": []any{"y", 1, map[string]any{"z": true}}}}, "s": []any{"lit", []any{"p"}}}
+			}
+			cfg := mkCfg()
+			w := &histWatch{}
+			w.add("(argument of interpolation.Interpolate)", cfg)
+			for i, h := range a.Hist {
+				o, _ := interpolation.Interpolate(cfg, interpolation.Options{LookupValue: lookupOf(h)})
+				when := fmt.Sprintf("after call %d of the history (interpolation.Interpolate with lookup %s)", i+1, envText(h))
+				if bad := w.check(when); bad != "" {
+					return histBad("input-mutated", bad)
+				}
+				scribble(o)
+				if bad := w.check(when + " and an edit of every map/sequence of its result"); bad != "" {
+					return histBad("result-aliases-input", bad)
+				}
+			}
 			out, err := interpolation.Interpolate(cfg, interpolation.Options{LookupValue: a.lookupFn()})
+			when := fmt.Sprintf("after interpolation.Interpolate with lookup %s (preceded by %d calls on the same dict)", envText(a.Lookup), len(a.Hist))
+			if bad := w.check(when); bad != "" {
+				return histBad("input-mutated", bad)
+			}
+			ref, referr := interpolation.Interpolate(mkCfg(), interpolation.Options{LookupValue: a.lookupFn()})
+			// on an error only its class is compared: which of several failing values is reported (and how much of the
+			// partial result exists) depends on Go's map iteration order, not on the history
+			if (err == nil) != (referr == nil) || (err != nil && jsonText(c07ErrClass(err)) != jsonText(c07ErrClass(referr))) || (err == nil && !reflect.DeepEqual(out, ref)) {
+				return histBad("history-dependent", fmt.Sprintf("interpolation.Interpolate of the dict %s with lookup %s gives %s (error %v) after %d earlier calls on the same dict (lookups %s), but %s (error %v) on a fresh copy",
+					jsonText(w.snaps[0]), envText(a.Lookup), jsonText(out), err, len(a.Hist), jsonText(a.Hist), jsonText(ref), referr))
+			}
 			if err != nil {
 				return map[string]any{"rendered": t, "out": c07ErrClass(err)}
+			}
+			if keep := deepCopy(out); true {
+				scribble(out)
+				if bad := w.check(when + " and an edit of every map/sequence of its result"); bad != "" {
+					return histBad("result-aliases-input", bad)
+				}
+				out = keep.(map[string]any)
 			}
 			v, _ := out["k"].(string)
 			var v2 any
@@ -283,6 +327,14 @@ func runC07Mapping(ctx *core.Ctx, rnd func(depth int, inArg bool) []seg) {
 				if sa.f == nil && sb.f == nil {
 					ctx.Count("mapping-exhaustive-interpolate")
 					ctx.Add("substInterp", a)
+					// histories on the same dict: the same lookup again, every variable set differently, every variable
+					// unset, two earlier calls (round 7)
+					for hi, hist := range [][]map[string]string{{a.Lookup}, {{"A": "h1", "B": "h2"}}, {{}}, {{"A": "", "B": "$A"}, {"A": "h1"}}} {
+						b := a
+						b.Hist = hist
+						ctx.Count(fmt.Sprintf("mapping-exhaustive-interpolate-history-%d", hi))
+						ctx.Add("substInterp", b)
+					}
 				}
 			}
 		}
@@ -305,6 +357,16 @@ func runC07Mapping(ctx *core.Ctx, rnd func(depth int, inArg bool) []seg) {
 		if i%3 == 0 {
 			b := a
 			b.File = nil
+			for n := ctx.Rng.Intn(3); n > 0; n-- { // 0–2 earlier calls on the same dict, random environments
+				h := map[string]string{}
+				for _, nm := range rnames {
+					if ctx.Rng.Intn(2) == 0 {
+						h[nm] = []string{"", "h", "hist-" + nm, "$$", "${A}"}[ctx.Rng.Intn(5)]
+					}
+				}
+				b.Hist = append(b.Hist, h)
+			}
+			ctx.Count(fmt.Sprintf("mapping-random-interpolate-history-len-%d", len(b.Hist)))
 			ctx.Count("mapping-random-interpolate")
 			ctx.Add("substInterp", b)
 		}
